@@ -2,7 +2,7 @@
 from sa.core import Repo, Report
 from sa.paths_check import check_temporal_dag_window, check_path_discipline
 
-EXPLANATION = ("static analysis: the prefix of temporal_dag (defaults, ValueError guard, construction of the id window) is "
+EXPLANATION = ("static analysis: temporal_dag is interpreted abstractly on symbolic temporal graphs (3-4 node roles incl. a label that is a prefix of another, snapshot ids t+1, t+2, t+4, presence of every pair at every id an uninterpreted predicate, all valuations; occurrence names as structured values; the DAG a recording object) and judged clause by clause: edge soundness and orientation, s < t except from source occurrences, sources exact, targets occurrences of v and nodes of the DAG, waiting only through instants with a neighbour.  In addition the prefix of temporal_dag (defaults, ValueError guard, construction of the id window) is "
                "interpreted abstractly over every ordering of start, end, first id, last id and a generic id (bisect / slices "
                "modelled by rank arithmetic): it must raise exactly for windows not inside [first, last] or with start > end, "
                "return an empty DAG for a graph without snapshots, and iterate exactly the ids inside the window in "
@@ -14,7 +14,20 @@ EXPLANATION = ("static analysis: the prefix of temporal_dag (defaults, ValueErro
 def run(repo: Repo, tier, rep: Report):
     n = check_temporal_dag_window(repo, rep)
     rep.floor("order types (temporal_dag window)", n, 100)
-    m = check_path_discipline(repo, rep, which=("dag",))
-    rep.floor("expansion-loop rule instances", m, 5)
+    from sa.core import AnalysisError
+    from sa.absint import NeedZero
+    from sa.dag_interp import check_dag_and_paths
+    try:
+        k = check_dag_and_paths(repo, rep, tier, which=("dag",))
+        rep.floor("interpreted DAG constructions", k, 500)
+    except (AnalysisError, NeedZero):
+        # the expansion loop left the interpreted fragment: fall back to the shape rules; abstain only if nothing fired
+        try:
+            check_path_discipline(repo, rep, which=("dag",))
+        except AnalysisError:
+            if not rep.findings:
+                raise
+        if not rep.findings:
+            raise
     rep.stats["exhaustive"] = True
     rep.assume("ids are ints; hop order follows id order because the loop visits ids ascending and adds frontier nodes after each id")
